@@ -19,6 +19,7 @@ import (
 type c13params struct {
 	Newcomers int
 	States    []string
+	Real      bool // connections reach the broker as transport.BaseConn over a byte-stream view of the pipe
 }
 
 func init() {
@@ -30,14 +31,20 @@ func init() {
 	})
 }
 
-var c13states = []string{"idle", "handshake-open-and-queued", "dying-at-the-same-moment", "disconnecting-at-the-same-moment"}
+var c13states = []string{"idle", "handshake-open-and-queued", "dying-at-the-same-moment", "disconnecting-at-the-same-moment", "blocked-in-send", "blocked-in-connack", "clean-session-queue-full"}
 
 func takeover(x *explore.X, pr c13params) {
 	state := pr.States[vrt.Choose(len(pr.States), "incumbent-state")]
 	// clean / unclean mix of the newcomers
 	mix := vrt.Choose(1<<pr.Newcomers, "clean-mix")
 	vrt.Quiet(true) // set-up phase: default schedule only
-	w := env.NewWorld(x, func(m *broker.MemoryBackend) { m.ClientInflightMessages = 1 })
+	w := env.NewWorld(x, func(m *broker.MemoryBackend) {
+		m.ClientInflightMessages = 1
+		if state == "clean-session-queue-full" {
+			m.SessionQueueSize = 1
+		}
+	})
+	w.Real = pr.Real
 	obs := w.NewClient("obs")
 	obs.Connect(true, nil)
 	obs.Send(env.Subscribe(1, packet.Subscription{Topic: "w", QOS: 1}))
@@ -45,11 +52,35 @@ func takeover(x *explore.X, pr c13params) {
 	helper.Connect(true, nil)
 	inc := w.NewClient("x")
 	inc.NoAck = true
-	inc.Connect(false, &packet.Message{Topic: "w", Payload: []byte("will-inc"), QOS: 1})
-	inc.Send(env.Subscribe(1, packet.Subscription{Topic: "t", QOS: 1}))
+	if state == "blocked-in-connack" {
+		// mid-handshake: the incumbent owns the id (Setup done) and its CONNACK cannot be written because it does not read.
+		// The session exists beforehand so that the newcomers resume the same one in every state.
+		pre := w.NewClient("x")
+		pre.Connect(false, nil)
+		pre.Send(env.Subscribe(1, packet.Subscription{Topic: "t", QOS: 1}))
+		w.Run(obs, helper, pre)
+		pre.Send(packet.NewDisconnect())
+		w.Run(obs, helper, pre)
+		inc.BEnd.Hold = true
+		inc.Connect(false, &packet.Message{Topic: "w", Payload: []byte("will-inc"), QOS: 1})
+	} else {
+		// (in the last state the incumbent has a clean, i.e. temporary, session)
+		inc.Connect(state == "clean-session-queue-full", &packet.Message{Topic: "w", Payload: []byte("will-inc"), QOS: 1})
+		inc.Send(env.Subscribe(1, packet.Subscription{Topic: "t", QOS: 1}))
+	}
 	w.Run(obs, helper, inc)
 	tags := []string{}
-	if state == "handshake-open-and-queued" {
+	if state == "blocked-in-send" {
+		// the incumbent stops reading; the broker's next write to it blocks
+		inc.Send(env.Subscribe(2, packet.Subscription{Topic: "t0", QOS: 0}))
+		w.Run(obs, helper, inc)
+		inc.BEnd.Hold = true
+		helper.Pub("t0", "z0", 0, false)
+		w.Run(obs, helper, inc)
+	}
+	if state == "handshake-open-and-queued" || state == "clean-session-queue-full" {
+		// (with a queue capacity of 1 the queue is now full: the concurrent publish below has to wait for room or for the
+		// incumbent going away)
 		helper.Pub("t", "m1", 1, false)
 		w.Run(obs, helper, inc)
 		helper.Pub("t", "m2", 1, false)
@@ -127,6 +158,32 @@ func takeover(x *explore.X, pr c13params) {
 		x.Logf("  %s", l)
 	}
 	// ----- final quiescence -----
+	if pr.Real && strings.HasPrefix(state, "blocked-") {
+		// a goroutine waiting in BaseConn.Close for the send mutex held by the blocked write: identified by the caller of
+		// Close; everything else in this execution (newcomer unanswered, Setup in progress) is a consequence of it
+		if st := env.ClosersBehindBlockedWrite(); len(st) > 0 {
+			seen := map[string]bool{}
+			for _, caller := range st {
+				if !seen[caller] {
+					seen[caller] = true
+					x.Failf("nothing-blocked", "close-waits-for-blocked-write:caller="+caller, "incumbent %s: %s waits inside transport.BaseConn.Close for the send mutex, which the Send blocked in the carrier's Write holds; the old connection is never terminated and no newcomer is answered (backend calls in progress: %d); blocked: %v", state, caller, len(w.Rec.InProgress()), vrt.Blocked())
+				}
+			}
+			x.Outcome("stalled")
+			return
+		}
+	}
+	if state == "clean-session-queue-full" && !inc.Closed() {
+		// the publish reached the full queue while the incumbent was still connected and nobody had begun to displace it:
+		// MemoryBackend documents that a connected client that does not drain its queue blocks the backend ("will
+		// eventually deadlock the broker"); the newcomers cannot even authenticate. Not a take-over any more.
+		for _, e := range w.Rec.InProgress() {
+			if e.Hook == "Publish" {
+				x.Outcome("publisher-waits-on-full-queue-of-connected-client")
+				return
+			}
+		}
+	}
 	var open []*env.Client
 	for _, c := range contenders {
 		if !c.Closed() {
@@ -184,7 +241,8 @@ func takeover(x *explore.X, pr c13params) {
 		}
 	}
 	// session continuity: with unclean newcomers only, nothing queued or in flight is lost or offered twice as new
-	if allUnclean {
+	// (a clean incumbent's session legitimately ends with it)
+	if allUnclean && state != "clean-session-queue-full" {
 		tags = append(tags, "m3")
 		for round := 0; round < 8; round++ {
 			surv.Flush()
@@ -224,8 +282,9 @@ func takeover(x *explore.X, pr c13params) {
 
 func runC13(r *report.Report) {
 	r.Assume("2-3 newcomers (quantifier: 2-8) present the incumbent's client id concurrently, as autonomous threads; clean/unclean mixes are all enumerated; a helper publishes towards the id at the same time",
-		"incumbent states: idle; outbound QoS 1 handshake open with one more message queued behind a window of 1 (= parked on an exhausted window); dying by EOF at the same moment; sending DISCONNECT at the same moment",
+		"incumbent states: idle; outbound QoS 1 handshake open with one more message queued behind a window of 1 (= parked on an exhausted window); dying by EOF at the same moment; sending DISCONNECT at the same moment; blocked in a send (the peer does not read); mid-handshake (Setup done, CONNACK write blocked); clean session with a full queue (a concurrent publish waits on it)",
 		"kill timeout (5 s) is a manual timer that is never fired: a take-over that could only be ended by it shows up as a Setup call in progress at quiescence and is a violation",
+		"schedules in which the concurrent publish reaches the full queue of the still connected, not yet displaced incumbent are the documented MemoryBackend limitation (a connected client that does not drain its queue blocks the backend) and are not judged; once the incumbent's connection has been closed the publish must get through",
 		"session continuity is compared only when every newcomer is unclean (a clean newcomer legitimately discards the session)")
 	mk := func(p c13params) string { js, _ := json.Marshal(p); return string(js) }
 	b2, b3 := 2, 1
@@ -233,8 +292,10 @@ func runC13(r *report.Report) {
 		b2, b3 = 3, 2
 	}
 	st := explore.Explore(explore.Config{Harness: "C13.takeover", Params: mk(c13params{Newcomers: 2, States: c13states}), Bound: b2, Workers: report.Workers(), Deadline: r.Deadline()})
-	r.AddExploration("2-newcomers", "schedule", fmt.Sprintf("2 concurrent CONNECTs with the incumbent's id x 4 incumbent states x 4 clean mixes, all schedules within delay bound %d", b2), st,
+	r.AddExploration("2-newcomers", "schedule", fmt.Sprintf("2 concurrent CONNECTs with the incumbent's id x %d incumbent states x 4 clean mixes, all schedules within delay bound %d", len(c13states), b2), st,
 		"one execution = one schedule; instant clause at every accepting CONNACK, survivor/lifecycle/will/session clauses at quiescence; non-trivial = executions (each is a race of >= 3 parties)", "takeover")
 	st = explore.Explore(explore.Config{Harness: "C13.takeover", Params: mk(c13params{Newcomers: 3, States: c13states}), Bound: b3, Workers: report.Workers(), Deadline: r.Deadline()})
-	r.AddExploration("3-newcomers", "schedule", fmt.Sprintf("3 concurrent CONNECTs x 4 incumbent states x 8 clean mixes, delay bound %d", b3), st, "as above", "takeover")
+	r.AddExploration("3-newcomers", "schedule", fmt.Sprintf("3 concurrent CONNECTs x %d incumbent states x 8 clean mixes, delay bound %d", len(c13states), b3), st, "as above", "takeover")
+	st = explore.Explore(explore.Config{Harness: "C13.takeover", Params: mk(c13params{Newcomers: 2, States: c13states, Real: true}), Bound: b3, Workers: report.Workers(), Deadline: r.Deadline()})
+	r.AddExploration("2-newcomers-over-baseconn", "schedule", fmt.Sprintf("2 concurrent CONNECTs x %d incumbent states x 4 clean mixes, every connection a transport.BaseConn over a byte-stream view of the pipe, delay bound %d", len(c13states), b3), st, "as above; the stream decoder, buffered writer, flush timer and the send / receive mutexes of BaseConn take part in every schedule", "takeover")
 }
